@@ -20,12 +20,14 @@ SPEC = {
           domain="every history of 2 operations from {clone into slot b, drop b, with_location(any span), to_cloned_arc+drop, into Arc<str>, swap} on a heap name with a 2-byte symbolic text", bound="k = 2"),
         H("c30_name_heap_history_k3", mod=NAME, functions=F_N, heavy=True, domain="same, 3 operations", bound="k = 3"),
         H("c30_name_heap_history_k4", mod=NAME, functions=F_N, tiers=("thorough",), heavy=True, domain="same, 4 operations", bound="k = 4"),
+        H("c30_name_heap_history_k6", mod=NAME, functions=F_N, tiers=("thorough",), heavy=True, optional=True, domain="same, 6 operations", bound="k = 6"),
         H("c30_name_creation_paths", mod=NAME, functions=F_N, heavy=True, domain="borrowed / static / Arc creation, clone, drop, conversion back, any first byte", bound="fixed scenario, symbolic text byte and span"),
         H("c30_name_location_roundtrip", mod=NAME, functions=F_N, heavy=True, domain="heap or static name x any two spans (any file id incl. NONE, any start offset)", bound="full domain of spans"),
         H("c30_name_eq_ord_hash", mod=NAME, functions=F_N, heavy=True, domain="two names with symbolic second byte, heap/static, with/without location", bound="2-byte texts"),
         H("c30_name_twin_must_fail", mod=NAME, functions=F_N, expect="twin", heavy=True, domain="vacuity twin", bound="-"),
         H("c30_node_history_k3", mod=NODE, functions=F_D, heavy=True, domain="every history of 3 operations from {clone, drop clone, make_mut(a), make_mut(b), get_mut(a)} on Node<u32> with any value/location", bound="k = 3"),
         H("c30_node_history_k5", mod=NODE, functions=F_D, tiers=("thorough",), heavy=True, domain="same, 5 operations", bound="k = 5"),
+        H("c30_node_history_k8", mod=NODE, functions=F_D, tiers=("thorough",), heavy=True, optional=True, domain="same, 8 operations", bound="k = 8"),
         H("c30_node_eq_hash_location", mod=NODE, functions=F_D, heavy=True, domain="Node<u32>/Node<u64>/Node<str> with any values and spans", bound="fixed scenario"),
         H("c30_node_twin_must_fail", mod=NODE, functions=F_D, expect="twin", heavy=True, domain="vacuity twin", bound="-"),
     ],
